@@ -34,7 +34,10 @@ def _judge(which):
         if pts is None:
             return
         ref, margin = geom.dihedral(*pts)
-        if not (margin > 1e-3) or math.isnan(ref):
+        # a dihedral exists unless three consecutive points are collinear; it is decided here when both bond angles
+        # are at least 0.006 degrees away from 0 / 180 (sine >= 1e-4: the reference is then good to ~1e-11 rad)
+        s1, s2 = geom.bond_sines(*pts)
+        if not (min(s1, s2) >= 1e-4) or math.isnan(ref):
             rec.skip(f"{which}.equals-iupac", "degenerate-geometry")
             return
         if exc is not None:
@@ -130,9 +133,9 @@ def _one(rec, phi, rng, idx):
     nearly_linear = scale == 1.0 and rng.random() < 0.15
     if nearly_linear:
         # bond angles close to (but not at) 0 and 180 degrees: still a well-defined dihedral
-        th1 = math.radians(rng.choice([0.2, 0.5, 1.0, 179.0, 179.8, 179.9]))
+        th1 = math.radians(rng.choice([0.2, 0.5, 1.0, 179.0, 179.8, 179.9, 179.95, 179.97, 179.99, 0.02, 0.05]))
         if rng.random() < 0.3:
-            th2 = math.radians(rng.choice([0.3, 179.7]))
+            th2 = math.radians(rng.choice([0.3, 179.7, 179.96, 0.03]))
     pts = geom.build_dihedral(phi, l1, l2, l3, th1, th2)
     ref, margin = geom.dihedral(*pts)
     rec.check("builder.reference-self-check", geom.wrapdiff(ref, phi) <= 1e-12, lambda: {"phi": phi, "ref": ref})
@@ -407,12 +410,21 @@ def _table_checks(case, rec, s3):
     if not rows or any(not (r["chain"] or "").strip() for r in rows):
         return
     rng = _r.Random("C18:table:" + case["file"])
-    # (a) residue-level reader, usual and shuffled item order
-    for what, order in (("usual item order", None), ("shuffled item order", rng.sample(emit.CIF_COLS, len(emit.CIF_COLS)))):
-        by, ref = _ref_by_residue(rows)
-        sp = emit.scratch_path(".cif")
+    # (a) residue-level reader: mmCIF with the usual and a shuffled item order; PDB with fields filled to their edges
+    # (the molecule translated so that coordinates take all eight columns, five-digit serials, HETATM for modified
+    # residues): chi is invariant under the translation, the dihedral of the WRITTEN coordinates is the reference
+    from vmon import work3d
+
+    shifted = [dict(r) for r in rows]
+    edge_desc = work3d.field_edges_rows(shifted, _r.Random("C18:edges:" + case["file"]))
+    pdb_ok = emit.fits_pdb(shifted) and all(len(r["chain"]) == 1 for r in shifted)
+    for what, order in (("usual item order", None), ("shuffled item order", rng.sample(emit.CIF_COLS, len(emit.CIF_COLS))), ("PDB, fields filled to their edges %s" % (edge_desc,), "pdb")):
+        if order == "pdb" and not pdb_ok:
+            continue
+        by, ref = _ref_by_residue(shifted if order == "pdb" else rows)
+        sp = emit.scratch_path(".pdb" if order == "pdb" else ".cif")
         with open(sp, "w") as fh:
-            fh.write(emit.emit_cif(rows, col_order=order))
+            fh.write(emit.emit_pdb(shifted) if order == "pdb" else emit.emit_cif(rows, col_order=order))
         _cur["ctx"] = "chi of a re-emitted table, " + what
         try:
             with open(sp) as fh:
